@@ -240,6 +240,14 @@ def check_import(cfg, crate, rep):
             if not pos_ or not pos_ <= utf8_kinds:
                 bad_u.append(F.show(tc)[-160:])
         rep.ob("C03.import", key2 + "|utf8-decode-only-for-utf8-kinds", n_u >= 1 and not bad_u, "the value's bytes are required to be UTF-8 only under the tags whose encoding is UTF-8 / ASCII (never for BMPString / UniversalString)", found=bad_u or n_u)
+        # the imported value is the decoded text itself: no std operation that alters or drops text (trimming, case folding,
+        # lossy decoding, replacing, splitting, truncating) takes part in computing the value that is stored
+        ALTERING = ("::trim", "::trim_start", "::trim_end", "::trim_matches", "::trim_start_matches", "::trim_end_matches", "::to_lowercase", "::to_uppercase",
+                    "::to_ascii_lowercase", "::to_ascii_uppercase", "::make_ascii_lowercase", "::make_ascii_uppercase", "::from_utf8_lossy", "::replace", "::replacen",
+                    "::strip_prefix", "::strip_suffix", "::split", "::split_once", "::rsplit", "::split_whitespace", "::truncate", "::escape_default", "::escape_debug",
+                    "::lines", "::repeat", "::retain", "::drain", "::pop", "::remove")
+        alt_ = sorted({c_ for c_ in calls_of(payload[1]) if c_.endswith(ALTERING) and c_.startswith(("core::str", "std::str", "alloc::str", "std::string", "alloc::string", "core::slice", "std::vec", "alloc::vec", "core::char", "std::char"))})
+        rep.ob("C03.import", key2 + "|value-unaltered", not alt_, "the imported attribute value is the decoded text as it stands (no trimming, case folding, lossy decoding, replacing or truncating on the way)", found=alt_, sp=n.get("sp"))
         # lossless: push is an upsert; a dominating duplicate check must leave with Err
         dup = [(c, v, nn) for c, v, nn, f3 in I2.fails if f3 == fn2 and any(("DistinguishedName::get" in F.show_atom(a) or "contains_key" in F.show_atom(a) or "contains(" in F.show_atom(a)) for a in F.atoms(c))]
         rep.ob("C03.lossless", key2 + "|duplicate-attribute-type", len(dup) >= 1,
